@@ -1,18 +1,18 @@
 #!/bin/bash
-# usage: confirm_seed.sh <id> <seed dir> "<cargo test args for the demonstration>"
-# Confirms in the scratch worktree /tmp/wt-<id>: (a) demo passes without the change,
-# (b) demo fails with it, (c) the existing suite passes with the change alone.
-id=$1; dir=$2; demo="$3"; wt=/tmp/wt-$id
-cd $wt || exit 2
-git checkout -q -- . && git clean -fdq -e target
-git apply $dir/demo.diff || { echo "demo.diff does not apply"; exit 2; }
-cargo test --offline $demo > /tmp/confirm-$id-a.log 2>&1; a=$?
-git apply $dir/patch.diff || { echo "patch.diff does not apply"; exit 2; }
-cargo test --offline $demo > /tmp/confirm-$id-b.log 2>&1; b=$?
-git checkout -q -- . && git clean -fdq -e target
-git apply $dir/patch.diff
-cargo test --offline > /tmp/confirm-$id-c.log 2>&1; c=$?
-passed=$(grep -E "^test result" /tmp/confirm-$id-c.log | awk '{s+=$4} END {print s}')
-git checkout -q -- . && git clean -fdq -e target
-echo "seed $id: (a) demo without change rc=$a  (b) demo with change rc=$b  (c) suite with change rc=$c passed=$passed"
-[ $a -eq 0 ] && [ $b -ne 0 ] && [ $c -eq 0 ] && echo "CONFIRMED $id" || echo "NOT CONFIRMED $id"
+# confirm_seed.sh <scratch worktree of /repo containing seed_out/{patch.diff,demo.diff}> <demo cargo-test args...>
+# (a) demo passes on the unchanged tree, (b) fails with patch.diff, (c) the 64 existing tests pass with patch.diff alone.
+set -u
+WT="$1"; shift
+cd "$WT" || exit 2
+export CARGO_NET_OFFLINE=true
+SO=$(mktemp -d /tmp/seedout.XXXX); cp -r seed_out/. "$SO"/
+git checkout -q -- . ; git clean -qfd -e target -e seed_out
+git apply "$SO/demo.diff" || { echo "demo.diff does not apply"; exit 2; }
+echo "== (a) demo on unchanged tree"; cargo test --offline "$@" > "$SO/a.log" 2>&1; A=$?; tail -4 "$SO/a.log"
+git apply "$SO/patch.diff" || { echo "patch.diff does not apply"; exit 2; }
+echo "== (b) demo with change"; cargo test --offline "$@" > "$SO/b.log" 2>&1; B=$?; grep -E "panicked|FAILED|failed|test result" "$SO/b.log" | head -8
+git apply -R "$SO/demo.diff"
+echo "== (c) existing suite with change"; cargo test --offline > "$SO/c.log" 2>&1; C=$?; grep -E "test result|FAILED" "$SO/c.log"
+PASSED=$(grep -E "^test result" "$SO/c.log" | sed -E 's/.* ([0-9]+) passed.*/\1/' | paste -sd+ | bc)
+git apply "$SO/demo.diff"
+echo "RESULT a_exit=$A b_exit=$B c_exit=$C suite_passed=$PASSED  (want 0, nonzero, 0, 64)  logs in $SO"
